@@ -168,7 +168,7 @@ func corruptEngine() {
 	rng := rand.New(rand.NewSource(*flagSeed))
 	nFiles, perClass := 5, 6
 	if *flagTier == "thorough" {
-		nFiles, perClass = 60, 40
+		nFiles, perClass = 40, 20
 	}
 	for fi := 0; fi < nFiles; fi++ {
 		o := randOpts(rng)
